@@ -1,5 +1,1457 @@
-//! Generated inputs (filled in by the generator modules).
+//! Typed random module generator. Bodies are generated top-down (`expr(ty)`
+//! leaves one value of type `ty`, `stmt` has no net stack effect), so every
+//! generated module is valid by construction; the judge still re-checks every
+//! input with the reference validator and counts a rejected one as a generator
+//! bug (inconclusive), never as a walrus verdict.
+//!
+//! Generated modules carry unique markers: a distinct i64 constant at the
+//! start of every function body, distinct initialisers, limits, payloads,
+//! export and debug names, custom-section payloads.
 
-pub fn materialize(_spec: &str) -> Option<Vec<u8>> {
-    None
+use crate::mspec::*;
+use crate::optable::{self, OpClass, OpEntry};
+use crate::ops::{self, Imm};
+use crate::rng::{fnv64, Rng};
+use std::collections::BTreeSet;
+use wasmparser::MemArg;
+
+#[derive(Clone, Debug)]
+pub struct Feats {
+    pub mutable_global: bool,
+    pub sat: bool,
+    pub signext: bool,
+    pub multivalue: bool,
+    pub reftypes: bool,
+    pub bulk: bool,
+    pub simd: bool,
+    pub relaxed: bool,
+    pub tail: bool,
+    pub multimem: bool,
+    pub mem64: bool,
+    pub threads: bool,
+}
+
+impl Feats {
+    pub fn all() -> Feats {
+        Feats { mutable_global: true, sat: true, signext: true, multivalue: true, reftypes: true, bulk: true, simd: true, relaxed: true, tail: true, multimem: true, mem64: true, threads: true }
+    }
+    pub fn mvp() -> Feats {
+        Feats { mutable_global: false, sat: false, signext: false, multivalue: false, reftypes: false, bulk: false, simd: false, relaxed: false, tail: false, multimem: false, mem64: false, threads: false }
+    }
+    pub fn stable() -> Feats {
+        let mut f = Feats::all();
+        f.multimem = false;
+        f.mem64 = false;
+        f.threads = false;
+        f
+    }
+    pub fn only(name: &str) -> Feats {
+        let mut f = Feats::mvp();
+        match name {
+            "mutable-global" => f.mutable_global = true,
+            "sat-float-to-int" => f.sat = true,
+            "sign-extension" => f.signext = true,
+            "multi-value" => f.multivalue = true,
+            "reference-types" => f.reftypes = true,
+            "bulk-memory" => f.bulk = true,
+            "simd" => f.simd = true,
+            "relaxed-simd" => {
+                f.simd = true;
+                f.relaxed = true
+            }
+            "tail-call" => f.tail = true,
+            "multi-memory" => f.multimem = true,
+            "memory64" => f.mem64 = true,
+            "threads" => f.threads = true,
+            _ => {}
+        }
+        f
+    }
+    fn allows(&self, proposal: &str) -> bool {
+        match proposal {
+            "mvp" => true,
+            "sign_extension" => self.signext,
+            "saturating_float_to_int" => self.sat,
+            "bulk_memory" => self.bulk,
+            "threads" => self.threads,
+            "simd" => self.simd,
+            "relaxed_simd" => self.relaxed,
+            "reference_types" => self.reftypes,
+            "tail_call" => self.tail,
+            _ => false,
+        }
+    }
+}
+
+#[derive(Clone, Debug)]
+pub struct GenCfg {
+    pub feats: Feats,
+    /// terminating by construction and restricted to operators the reference interpreter implements
+    pub exec: bool,
+    pub max_funcs: usize,
+    pub body_budget: i64,
+    pub markers: bool,
+    pub names: bool,
+    pub customs: bool,
+    pub producers: bool,
+    /// many entities, few roots (GC workloads)
+    pub sparse: bool,
+    /// export (almost) everything so state is observable by name
+    pub export_all: bool,
+}
+
+impl GenCfg {
+    pub fn profile(name: &str) -> GenCfg {
+        let base = GenCfg { feats: Feats::all(), exec: false, max_funcs: 8, body_budget: 40, markers: true, names: false, customs: false, producers: false, sparse: false, export_all: true };
+        match name {
+            "mvp" => GenCfg { feats: Feats::mvp(), ..base },
+            "stable" => GenCfg { feats: Feats::stable(), ..base },
+            "full" => GenCfg { max_funcs: 10, body_budget: 60, ..base },
+            "exec" => GenCfg { exec: true, feats: Feats { relaxed: false, ..Feats::all() }, ..base },
+            "execmvp" => GenCfg { exec: true, feats: Feats::mvp(), ..base },
+            "gcgraph" => GenCfg { sparse: true, exec: true, max_funcs: 14, body_budget: 25, export_all: false, feats: Feats { relaxed: false, ..Feats::all() }, ..base },
+            "names" => GenCfg { names: true, max_funcs: 8, body_budget: 30, ..base },
+            "customs" => GenCfg { customs: true, names: true, producers: true, max_funcs: 4, body_budget: 15, ..base },
+            "tiny" => GenCfg { max_funcs: 3, body_budget: 12, ..base },
+            n if n.starts_with("feature-") => GenCfg { feats: Feats::only(&n[8..]), ..base },
+            _ => base,
+        }
+    }
+}
+
+struct Label {
+    tys: Vec<VT>,
+    is_loop: bool,
+}
+
+struct Env {
+    types: Vec<(Vec<VT>, Vec<VT>)>,
+    func_tys: Vec<u32>,
+    num_imported_funcs: u32,
+    tables: Vec<TableTy>,
+    memories: Vec<Limits>,
+    globals: Vec<GlobalTy>,
+    imported_globals: u32,
+    elems: Vec<VT>,
+    ndatas: u32,
+    ref_funcs: BTreeSet<u32>,
+    uses_data_ops: bool,
+}
+
+impl Env {
+    fn ty(&mut self, p: &[VT], r: &[VT]) -> u32 {
+        if let Some(i) = self.types.iter().position(|(a, b)| a == p && b == r) {
+            return i as u32;
+        }
+        self.types.push((p.to_vec(), r.to_vec()));
+        (self.types.len() - 1) as u32
+    }
+}
+
+fn val_types(f: &Feats) -> Vec<VT> {
+    let mut v = vec![VT::I32, VT::I64, VT::F32, VT::F64];
+    if f.simd {
+        v.push(VT::V128);
+    }
+    if f.reftypes {
+        v.push(VT::FuncRef);
+        v.push(VT::ExternRef);
+    }
+    v
+}
+
+pub fn interesting_const(rng: &mut Rng, t: VT, c: &mut Code) {
+    match t {
+        VT::I32 => {
+            c.i32_const(rng.interesting_u64() as u32 as i32);
+        }
+        VT::I64 => {
+            c.i64_const(rng.interesting_u64() as i64);
+        }
+        VT::F32 => {
+            const B: [u32; 12] = [0, 0x8000_0000, 0x3f80_0000, 0xbf80_0000, 0x7f80_0000, 0xff80_0000, 0x7fc0_0000, 0x7fa0_0001, 0xffc1_2345, 0x0000_0001, 0x7f7f_ffff, 0x4f00_0000];
+            let v = if rng.chance(1, 2) { *rng.pick(&B) } else { rng.next() as u32 };
+            c.f32_const(v);
+        }
+        VT::F64 => {
+            const B: [u64; 10] = [0, 0x8000_0000_0000_0000, 0x3ff0_0000_0000_0000, 0x7ff0_0000_0000_0000, 0xfff0_0000_0000_0000, 0x7ff8_0000_0000_0000, 0x7ff4_0000_0000_0001, 0xfff8_0000_dead_beef, 1, 0x41e0_0000_0000_0000];
+            let v = if rng.chance(1, 2) { *rng.pick(&B) } else { rng.next() };
+            c.f64_const(v);
+        }
+        VT::V128 => {
+            let mut b = [0u8; 16];
+            let a = rng.interesting_u64().to_le_bytes();
+            let d = rng.next().to_le_bytes();
+            b[..8].copy_from_slice(&a);
+            b[8..].copy_from_slice(&d);
+            c.v128_const(&b);
+        }
+        VT::FuncRef | VT::ExternRef => {
+            c.ref_null(t);
+        }
+    }
+}
+
+struct BodyGen<'a> {
+    env: &'a mut Env,
+    rng: Rng,
+    cfg: &'a GenCfg,
+    locals: Vec<VT>,
+    nparams: usize,
+    labels: Vec<Label>,
+    code: Code,
+    budget: i64,
+    func_index: u32,
+    ret: Vec<VT>,
+    plain_by_result: &'a PlainIndex,
+    /// loop counters: never written by generated assignments, so loops terminate
+    counters: Vec<u32>,
+}
+
+/// Index of table operators by result type for the expression generator.
+pub struct PlainIndex {
+    by_result: Vec<(VT, Vec<&'static OpEntry>)>,
+    void_mem: Vec<&'static OpEntry>,
+}
+
+impl PlainIndex {
+    fn new(cfg: &GenCfg) -> PlainIndex {
+        let tab = optable::table();
+        let mut by_result: Vec<(VT, Vec<&'static OpEntry>)> = ALL_TYPES.iter().map(|t| (*t, vec![])).collect();
+        let mut void_mem = vec![];
+        for e in tab.iter() {
+            if e.class == OpClass::Special || !cfg.feats.allows(e.info.proposal) {
+                continue;
+            }
+            if e.info.name.ends_with("Const") {
+                continue;
+            }
+            if e.class == OpClass::Mem && e.info.name.contains("Atomic") && !cfg.feats.threads {
+                continue;
+            }
+            if cfg.exec && (e.info.name == "MemoryAtomicWait32" || e.info.name == "MemoryAtomicWait64") {
+                // wait on an unshared memory traps, on a shared one with infinite timeout would block: keep rare
+                continue;
+            }
+            if e.info.name == "AtomicFence" {
+                void_mem.push(e);
+                continue;
+            }
+            if e.params.iter().chain(e.results.iter()).any(|t| *t == VT::V128) && !cfg.feats.simd {
+                continue;
+            }
+            match e.results.len() {
+                0 => void_mem.push(e),
+                1 => by_result.iter_mut().find(|(t, _)| *t == e.results[0]).unwrap().1.push(e),
+                _ => {}
+            }
+        }
+        PlainIndex { by_result, void_mem }
+    }
+    fn for_result(&self, t: VT) -> &[&'static OpEntry] {
+        &self.by_result.iter().find(|(x, _)| *x == t).unwrap().1
+    }
+}
+
+impl<'a> BodyGen<'a> {
+    fn depth_ok(&self, depth: usize) -> bool {
+        depth < 7 && self.budget > 0
+    }
+
+    fn new_local(&mut self, t: VT) -> u32 {
+        self.locals.push(t);
+        (self.locals.len() - 1) as u32
+    }
+
+    fn block_type(&mut self, params: &[VT], results: &[VT]) -> BT {
+        if params.is_empty() && results.is_empty() {
+            if self.cfg.feats.multivalue && self.rng.chance(1, 10) {
+                return BT::Type(self.env.ty(&[], &[]));
+            }
+            return BT::Empty;
+        }
+        if params.is_empty() && results.len() == 1 {
+            if self.cfg.feats.multivalue && self.rng.chance(1, 10) {
+                return BT::Type(self.env.ty(&[], results));
+            }
+            return BT::Val(results[0]);
+        }
+        BT::Type(self.env.ty(params, results))
+    }
+
+    fn locals_of(&self, t: VT) -> Vec<u32> {
+        self.locals.iter().enumerate().filter(|(_, x)| **x == t).map(|(i, _)| i as u32).collect()
+    }
+    fn globals_of(&self, t: VT, need_mut: bool) -> Vec<u32> {
+        self.env.globals.iter().enumerate().filter(|(_, g)| g.ty == t && (!need_mut || g.mutable)).map(|(i, _)| i as u32).collect()
+    }
+    fn tables_of(&self, t: VT) -> Vec<u32> {
+        self.env.tables.iter().enumerate().filter(|(_, x)| x.elem == t).map(|(i, _)| i as u32).collect()
+    }
+
+    /// address operand for memory `m`: masked into the first page most of the time
+    fn addr(&mut self, m: u32, depth: usize) {
+        let is64 = self.env.memories[m as usize].is64;
+        let t = if is64 { VT::I64 } else { VT::I32 };
+        self.expr(t, depth + 1);
+        if !self.rng.chance(1, 10) {
+            if is64 {
+                self.code.i64_const(0xff8).b(0x83); // i64.and
+            } else {
+                self.code.i32_const(0xff8).b(0x71); // i32.and
+            }
+        }
+    }
+
+    fn small_index(&mut self, is64: bool, depth: usize) {
+        let t = if is64 { VT::I64 } else { VT::I32 };
+        if self.rng.chance(2, 3) {
+            let v = self.rng.below(6) as i32;
+            if is64 {
+                self.code.i64_const(v as i64);
+            } else {
+                self.code.i32_const(v);
+            }
+        } else {
+            self.expr(t, depth + 1);
+            if is64 {
+                self.code.i64_const(7).b(0x83);
+            } else {
+                self.code.i32_const(7).b(0x71);
+            }
+        }
+    }
+
+    fn memarg_for(&mut self, e: &OpEntry, m: u32) -> MemArg {
+        let is64 = self.env.memories[m as usize].is64;
+        let align = if e.exact_align { e.max_align } else { self.rng.below(e.max_align as u64 + 1) as u8 };
+        let offset = match self.rng.below(10) {
+            0 => 0xfff,
+            1 => {
+                if is64 && !self.cfg.exec {
+                    self.rng.interesting_u64()
+                } else if !self.cfg.exec {
+                    self.rng.interesting_u64() & 0xffff_ffff
+                } else {
+                    0x10000
+                }
+            }
+            2 | 3 => self.rng.below(64) * 8,
+            _ => 0,
+        };
+        MemArg { align, max_align: e.max_align, offset, memory: m }
+    }
+
+    /// Emit a table operator with operands generated for its (possibly memory-dependent) signature.
+    fn emit_table_op(&mut self, e: &'static OpEntry, depth: usize) {
+        let mut imm = Imm::default();
+        if e.class == OpClass::Mem {
+            let m = self.rng.below(self.env.memories.len() as u64) as u32;
+            // address, then the remaining parameters
+            self.addr(m, depth);
+            // atomics need natural alignment of the effective address; the mask 0xff8 keeps 8-byte alignment,
+            // for 16-byte accesses alignment is only a hint
+            let params: Vec<VT> = e.params[1..].to_vec();
+            for p in params {
+                self.expr(p, depth + 1);
+            }
+            let mut ma = self.memarg_for(e, m);
+            if e.info.name.contains("Atomic") {
+                ma.offset &= !0xf;
+            }
+            imm.memarg = ma;
+            if e.lanes > 0 {
+                imm.lane = self.rng.below(e.lanes as u64) as u8;
+            }
+        } else {
+            let params = e.params.clone();
+            for p in params {
+                self.expr(p, depth + 1);
+            }
+            if e.lanes > 0 {
+                imm.lane = self.rng.below(e.lanes as u64) as u8;
+            }
+            if e.info.fields.iter().any(|f| f.0 == "lanes") {
+                for l in imm.lanes.iter_mut() {
+                    *l = self.rng.below(32) as u8;
+                }
+            }
+        }
+        let op = ops::make_op(e.index, &imm);
+        self.code.op(&op);
+    }
+
+    fn leaf(&mut self, t: VT) {
+        let ls = self.locals_of(t);
+        let gs = self.globals_of(t, false);
+        match self.rng.below(4) {
+            0 if !ls.is_empty() => {
+                let l = *self.rng.pick(&ls);
+                self.code.local_get(l);
+            }
+            1 if !gs.is_empty() => {
+                let g = *self.rng.pick(&gs);
+                self.code.global_get(g);
+            }
+            2 if t == VT::FuncRef && self.env.func_tys.len() > 0 && self.rng.chance(2, 3) => {
+                let f = self.rng.below(self.env.func_tys.len() as u64) as u32;
+                self.env.ref_funcs.insert(f);
+                self.code.ref_func(f);
+            }
+            _ => interesting_const(&mut self.rng, t, &mut self.code),
+        }
+    }
+
+    /// Leaves exactly one value of type `t` on the stack.
+    fn expr(&mut self, t: VT, depth: usize) {
+        self.budget -= 1;
+        if !self.depth_ok(depth) {
+            self.leaf(t);
+            return;
+        }
+        let choice = self.rng.below(20);
+        match choice {
+            0..=7 => {
+                // operator from the measured table
+                let cands = self.plain_by_result.for_result(t);
+                let usable: Vec<&'static OpEntry> = cands.iter().copied().filter(|e| e.class != OpClass::Mem || !self.env.memories.is_empty()).collect();
+                if usable.is_empty() {
+                    self.leaf(t);
+                } else {
+                    let e = *self.rng.pick(&usable);
+                    self.emit_table_op(e, depth);
+                }
+            }
+            8 => {
+                // block with a result, possibly left early through br / br_if
+                let bt = self.block_type(&[], &[t]);
+                self.code.block(&bt);
+                self.labels.push(Label { tys: vec![t], is_loop: false });
+                self.stmts(depth + 1, 2);
+                if self.rng.chance(1, 3) {
+                    self.expr(t, depth + 1);
+                    self.expr(VT::I32, depth + 1);
+                    self.code.br_if(0);
+                    self.code.drop_();
+                }
+                self.expr(t, depth + 1);
+                self.labels.pop();
+                self.code.end_();
+            }
+            9 => {
+                // if/else with a result
+                self.expr(VT::I32, depth + 1);
+                let bt = self.block_type(&[], &[t]);
+                self.code.if_(&bt);
+                self.labels.push(Label { tys: vec![t], is_loop: false });
+                self.stmts(depth + 1, 1);
+                self.expr(t, depth + 1);
+                self.code.else_();
+                self.expr(t, depth + 1);
+                self.labels.pop();
+                self.code.end_();
+            }
+            10 => {
+                // call of a function returning exactly [t]
+                let me = self.func_index;
+                let cands: Vec<u32> = (0..self.env.func_tys.len() as u32)
+                    .filter(|f| (*f < self.env.num_imported_funcs || *f > me) && self.env.types[self.env.func_tys[*f as usize] as usize].1 == vec![t])
+                    .collect();
+                if cands.is_empty() {
+                    self.leaf(t);
+                } else {
+                    let f = *self.rng.pick(&cands);
+                    let ps = self.env.types[self.env.func_tys[f as usize] as usize].0.clone();
+                    for p in ps {
+                        self.expr(p, depth + 1);
+                    }
+                    self.code.call(f);
+                }
+            }
+            11 => {
+                // select
+                self.expr(t, depth + 1);
+                self.expr(t, depth + 1);
+                self.expr(VT::I32, depth + 1);
+                if t.is_ref() || (self.cfg.feats.reftypes && self.rng.chance(1, 4)) {
+                    self.code.select_t(t);
+                } else {
+                    self.code.select();
+                }
+            }
+            12 => {
+                // local.tee
+                let ls: Vec<u32> = self.locals_of(t).into_iter().filter(|l| !self.is_counter(*l)).collect();
+                if ls.is_empty() {
+                    self.leaf(t);
+                } else {
+                    let l = *self.rng.pick(&ls);
+                    self.expr(t, depth + 1);
+                    self.code.local_tee(l);
+                }
+            }
+            13 => {
+                // call_indirect with result [t]
+                let tabs = self.tables_of(VT::FuncRef);
+                let tys: Vec<u32> = (0..self.env.types.len() as u32).filter(|i| self.env.types[*i as usize].1 == vec![t] && self.env.types[*i as usize].0.len() <= 3).collect();
+                if tabs.is_empty() || tys.is_empty() || (tabs.iter().all(|x| *x != 0) && !self.cfg.feats.reftypes) {
+                    self.leaf(t);
+                } else {
+                    let tab = if self.cfg.feats.reftypes { *self.rng.pick(&tabs) } else { 0 };
+                    let ty = *self.rng.pick(&tys);
+                    let ps = self.env.types[ty as usize].0.clone();
+                    for p in ps {
+                        self.expr(p, depth + 1);
+                    }
+                    self.small_index(false, depth);
+                    self.code.call_indirect(ty, tab);
+                }
+            }
+            14 => {
+                // value computed, a statement runs while it sits on the stack
+                self.expr(t, depth + 1);
+                self.stmt(depth + 1);
+            }
+            15 if t == VT::I32 || t == VT::I64 => {
+                // memory.size / memory.grow / table.size / table.grow / ref.is_null
+                let mems: Vec<u32> = (0..self.env.memories.len() as u32).filter(|m| self.env.memories[*m as usize].is64 == (t == VT::I64)).collect();
+                let k = self.rng.below(5);
+                if k < 2 && !mems.is_empty() {
+                    let m = *self.rng.pick(&mems);
+                    if k == 0 {
+                        self.code.memory_size(m);
+                    } else {
+                        if t == VT::I64 {
+                            self.code.i64_const(self.rng.below(2) as i64);
+                        } else {
+                            self.code.i32_const(self.rng.below(2) as i32);
+                        }
+                        self.code.memory_grow(m);
+                    }
+                } else if t == VT::I32 && self.cfg.feats.reftypes && !self.env.tables.is_empty() {
+                    let tb = self.rng.below(self.env.tables.len() as u64) as u32;
+                    let et = self.env.tables[tb as usize].elem;
+                    match k {
+                        2 => {
+                            self.code.table_size(tb);
+                        }
+                        3 => {
+                            self.expr(et, depth + 1);
+                            self.code.i32_const(self.rng.below(3) as i32);
+                            self.code.table_grow(tb);
+                        }
+                        _ => {
+                            self.expr(et, depth + 1);
+                            self.code.ref_is_null();
+                        }
+                    }
+                } else {
+                    self.leaf(t);
+                }
+            }
+            15 if t.is_ref() => {
+                let tabs = self.tables_of(t);
+                if tabs.is_empty() {
+                    self.leaf(t);
+                } else {
+                    let tb = *self.rng.pick(&tabs);
+                    self.small_index(false, depth);
+                    self.code.table_get(tb);
+                }
+            }
+            16 if self.cfg.feats.multivalue => {
+                // multi-value block: (param i32) (result t): i32 consumed inside
+                let bt = self.block_type(&[VT::I32], &[t]);
+                self.expr(VT::I32, depth + 1);
+                self.code.block(&bt);
+                self.labels.push(Label { tys: vec![t], is_loop: false });
+                // stack inside: [i32]
+                self.code.drop_();
+                self.expr(t, depth + 1);
+                self.labels.pop();
+                self.code.end_();
+            }
+            17 if self.cfg.feats.multivalue => {
+                // call of a function with several results; keep the one of type t if it is last
+                let me = self.func_index;
+                let cands: Vec<u32> = (0..self.env.func_tys.len() as u32)
+                    .filter(|f| (*f < self.env.num_imported_funcs || *f > me) && {
+                        let r = &self.env.types[self.env.func_tys[*f as usize] as usize].1;
+                        r.len() >= 2 && r[0] == t
+                    })
+                    .collect();
+                if cands.is_empty() {
+                    self.leaf(t);
+                } else {
+                    let f = *self.rng.pick(&cands);
+                    let (ps, rs) = self.env.types[self.env.func_tys[f as usize] as usize].clone();
+                    for p in ps {
+                        self.expr(p, depth + 1);
+                    }
+                    self.code.call(f);
+                    for _ in 1..rs.len() {
+                        self.code.drop_();
+                    }
+                }
+            }
+            _ => self.leaf(t),
+        }
+    }
+
+    fn is_counter(&self, l: u32) -> bool {
+        self.counters.contains(&l)
+    }
+
+    fn exprs(&mut self, tys: &[VT], depth: usize) {
+        for t in tys {
+            self.expr(*t, depth);
+        }
+    }
+
+    fn stmts(&mut self, depth: usize, max: u64) {
+        let n = self.rng.below(max + 1);
+        for _ in 0..n {
+            if self.budget <= 0 {
+                break;
+            }
+            self.stmt(depth);
+        }
+    }
+
+    /// Dead code that follows an unconditional transfer inside the current block.
+    fn junk(&mut self, depth: usize) {
+        match self.rng.below(6) {
+            0 => {}
+            1 => {
+                // stack-polymorphic: operands come out of nowhere
+                self.code.b(0x6a).drop_(); // i32.add; drop
+            }
+            2 => {
+                self.code.drop_();
+            }
+            3 => {
+                self.code.nop().i32_const(0xdead).drop_();
+            }
+            4 => {
+                // a whole nested construct in dead code
+                self.code.block(&BT::Empty).i32_const(1).br_if(0).end_();
+            }
+            _ => {
+                let saved = self.budget;
+                self.budget = 6;
+                self.stmt(depth + 1);
+                self.budget = saved;
+            }
+        }
+    }
+
+    /// No net effect on the operand stack.
+    fn stmt(&mut self, depth: usize) {
+        self.budget -= 1;
+        let vts = val_types(&self.cfg.feats);
+        let choice = self.rng.below(24);
+        if !self.depth_ok(depth) && choice >= 4 {
+            self.code.nop();
+            return;
+        }
+        match choice {
+            0 => {
+                let t = *self.rng.pick(&vts);
+                self.expr(t, depth + 1);
+                self.code.drop_();
+            }
+            1 | 2 => {
+                // local.set on a non-parameter or parameter local
+                if self.locals.is_empty() {
+                    self.code.nop();
+                    return;
+                }
+                let l = self.rng.below(self.locals.len() as u64) as u32;
+                if self.is_counter(l) {
+                    self.code.nop();
+                    return;
+                }
+                let t = self.locals[l as usize];
+                self.expr(t, depth + 1);
+                self.code.local_set(l);
+            }
+            3 => {
+                let gs: Vec<u32> = (0..self.env.globals.len() as u32).filter(|g| self.env.globals[*g as usize].mutable).collect();
+                if gs.is_empty() {
+                    self.code.nop();
+                    return;
+                }
+                let g = *self.rng.pick(&gs);
+                let t = self.env.globals[g as usize].ty;
+                self.expr(t, depth + 1);
+                self.code.global_set(g);
+            }
+            4 | 5 => {
+                // store-like table operator (no result)
+                let usable: Vec<&'static OpEntry> = self.plain_by_result.void_mem.iter().copied().filter(|e| e.class != OpClass::Mem || !self.env.memories.is_empty()).collect();
+                if usable.is_empty() {
+                    self.code.nop();
+                } else {
+                    let e = *self.rng.pick(&usable);
+                    self.emit_table_op(e, depth);
+                }
+            }
+            6 | 7 => {
+                // if / else
+                self.expr(VT::I32, depth + 1);
+                self.code.if_(&BT::Empty);
+                self.labels.push(Label { tys: vec![], is_loop: false });
+                self.stmts(depth + 1, 3);
+                if self.rng.chance(1, 2) {
+                    self.code.else_();
+                    self.stmts(depth + 1, 2);
+                }
+                self.labels.pop();
+                self.code.end_();
+            }
+            8 => {
+                // block with an early exit
+                let bt = self.block_type(&[], &[]);
+                self.code.block(&bt);
+                self.labels.push(Label { tys: vec![], is_loop: false });
+                self.stmts(depth + 1, 2);
+                self.expr(VT::I32, depth + 1);
+                self.code.br_if(0);
+                self.stmts(depth + 1, 2);
+                self.labels.pop();
+                self.code.end_();
+            }
+            9 => {
+                // counted loop: terminates by construction
+                let c = self.new_local(VT::I32);
+                self.counters.push(c);
+                let n = self.rng.range(1, 5) as i32;
+                self.code.i32_const(n).local_set(c);
+                self.code.loop_(&BT::Empty);
+                self.labels.push(Label { tys: vec![], is_loop: true });
+                self.stmts(depth + 1, 3);
+                self.code.local_get(c).i32_const(1).b(0x6b).local_tee(c); // i32.sub
+                self.code.br_if(0);
+                self.labels.pop();
+                self.code.end_();
+            }
+            10 => {
+                // terminator followed by dead code, contained in a block that is entered conditionally
+                self.expr(VT::I32, depth + 1);
+                if self.rng.chance(2, 3) {
+                    self.code.b(0x45); // i32.eqz: mostly-false conditions keep more of the program alive
+                }
+                self.code.if_(&BT::Empty);
+                self.labels.push(Label { tys: vec![], is_loop: false });
+                self.code.block(&BT::Empty);
+                self.labels.push(Label { tys: vec![], is_loop: false });
+                self.stmts(depth + 1, 2);
+                // choose a branch target that is not a loop
+                let targets: Vec<usize> = (0..self.labels.len()).filter(|i| !self.labels[*i].is_loop).collect();
+                let k = self.rng.below(6);
+                if k <= 2 {
+                    let li = *self.rng.pick(&targets);
+                    let d = (self.labels.len() - 1 - li) as u32;
+                    let tys = self.labels[li].tys.clone();
+                    self.exprs(&tys, depth + 1);
+                    self.code.br(d);
+                } else if k == 3 {
+                    // br_table over all labels with the same types as the default
+                    let li = *self.rng.pick(&targets);
+                    let tys = self.labels[li].tys.clone();
+                    let same: Vec<u32> = targets.iter().filter(|i| self.labels[**i].tys == tys).map(|i| (self.labels.len() - 1 - *i) as u32).collect();
+                    let n = self.rng.below(5) as usize;
+                    let ls: Vec<u32> = (0..n).map(|_| *self.rng.pick(&same)).collect();
+                    let d = (self.labels.len() - 1 - li) as u32;
+                    self.exprs(&tys, depth + 1);
+                    self.expr(VT::I32, depth + 1);
+                    self.code.br_table(&ls, d);
+                } else if k == 4 {
+                    let ret = self.ret.clone();
+                    self.exprs(&ret, depth + 1);
+                    self.code.return_();
+                } else {
+                    // guarded so that generated programs rarely die here
+                    self.code.unreachable();
+                }
+                let nj = self.rng.below(3);
+                for _ in 0..nj {
+                    self.junk(depth);
+                }
+                self.labels.pop();
+                self.code.end_();
+                self.labels.pop();
+                self.code.end_();
+            }
+            11 => {
+                // call with all results dropped
+                let me = self.func_index;
+                let cands: Vec<u32> = (0..self.env.func_tys.len() as u32).filter(|f| *f < self.env.num_imported_funcs || *f > me).collect();
+                if cands.is_empty() {
+                    self.code.nop();
+                    return;
+                }
+                let f = *self.rng.pick(&cands);
+                let (ps, rs) = self.env.types[self.env.func_tys[f as usize] as usize].clone();
+                self.exprs(&ps, depth + 1);
+                self.code.call(f);
+                for _ in rs {
+                    self.code.drop_();
+                }
+            }
+            12 if self.cfg.feats.bulk && !self.env.memories.is_empty() => {
+                // memory.fill / memory.copy / memory.init / data.drop
+                let m = self.rng.below(self.env.memories.len() as u64) as u32;
+                let is64 = self.env.memories[m as usize].is64;
+                match self.rng.below(4) {
+                    0 => {
+                        self.addr(m, depth);
+                        self.expr(VT::I32, depth + 1);
+                        self.small_index(is64, depth);
+                        self.code.memory_fill(m);
+                    }
+                    1 => {
+                        let m2 = if self.cfg.feats.multimem { self.rng.below(self.env.memories.len() as u64) as u32 } else { m };
+                        let is64b = self.env.memories[m2 as usize].is64;
+                        self.addr(m, depth);
+                        self.addr(m2, depth);
+                        self.small_index(is64 && is64b, depth);
+                        self.code.memory_copy(m, m2);
+                    }
+                    2 if self.env.ndatas > 0 => {
+                        let d = self.rng.below(self.env.ndatas as u64) as u32;
+                        self.addr(m, depth);
+                        self.small_index(false, depth);
+                        self.small_index(false, depth);
+                        self.code.memory_init(d, m);
+                        self.env.uses_data_ops = true;
+                    }
+                    _ if self.env.ndatas > 0 => {
+                        let d = self.rng.below(self.env.ndatas as u64) as u32;
+                        self.code.data_drop(d);
+                        self.env.uses_data_ops = true;
+                    }
+                    _ => {
+                        self.code.nop();
+                    }
+                }
+            }
+            13 if self.cfg.feats.reftypes && !self.env.tables.is_empty() => {
+                let tb = self.rng.below(self.env.tables.len() as u64) as u32;
+                let et = self.env.tables[tb as usize].elem;
+                match self.rng.below(5) {
+                    0 => {
+                        self.small_index(false, depth);
+                        self.expr(et, depth + 1);
+                        self.code.table_set(tb);
+                    }
+                    1 => {
+                        self.small_index(false, depth);
+                        self.expr(et, depth + 1);
+                        self.small_index(false, depth);
+                        self.code.table_fill(tb);
+                    }
+                    2 if self.cfg.feats.bulk => {
+                        let same = self.tables_of(et);
+                        let tb2 = *self.rng.pick(&same);
+                        self.small_index(false, depth);
+                        self.small_index(false, depth);
+                        self.small_index(false, depth);
+                        self.code.table_copy(tb, tb2);
+                    }
+                    3 if self.cfg.feats.bulk => {
+                        let es: Vec<u32> = (0..self.env.elems.len() as u32).filter(|e| self.env.elems[*e as usize] == et).collect();
+                        if es.is_empty() {
+                            self.code.nop();
+                        } else {
+                            let e = *self.rng.pick(&es);
+                            self.small_index(false, depth);
+                            self.small_index(false, depth);
+                            self.small_index(false, depth);
+                            self.code.table_init(e, tb);
+                        }
+                    }
+                    _ if self.cfg.feats.bulk && !self.env.elems.is_empty() => {
+                        let e = self.rng.below(self.env.elems.len() as u64) as u32;
+                        self.code.elem_drop(e);
+                    }
+                    _ => {
+                        self.code.nop();
+                    }
+                }
+            }
+            12 if self.cfg.feats.bulk && !self.env.tables.is_empty() && !self.cfg.feats.reftypes => {
+                // bulk-memory table ops without reference types: table 0 only
+                let es: Vec<u32> = (0..self.env.elems.len() as u32).collect();
+                if es.is_empty() {
+                    self.code.nop();
+                } else {
+                    let e = *self.rng.pick(&es);
+                    self.small_index(false, depth);
+                    self.small_index(false, depth);
+                    self.small_index(false, depth);
+                    self.code.table_init(e, 0);
+                }
+            }
+            14 if self.cfg.feats.tail => {
+                // tail call, guarded by a condition, to a later function with the same results
+                let me = self.func_index;
+                let ret = self.ret.clone();
+                let cands: Vec<u32> = (0..self.env.func_tys.len() as u32)
+                    .filter(|f| (*f < self.env.num_imported_funcs || *f > me) && self.env.types[self.env.func_tys[*f as usize] as usize].1 == ret)
+                    .collect();
+                if cands.is_empty() {
+                    self.code.nop();
+                    return;
+                }
+                let f = *self.rng.pick(&cands);
+                let ps = self.env.types[self.env.func_tys[f as usize] as usize].0.clone();
+                self.expr(VT::I32, depth + 1);
+                self.code.if_(&BT::Empty);
+                self.labels.push(Label { tys: vec![], is_loop: false });
+                self.exprs(&ps, depth + 1);
+                if self.rng.chance(1, 4) && !self.tables_of(VT::FuncRef).is_empty() && (self.cfg.feats.reftypes || self.tables_of(VT::FuncRef).contains(&0)) {
+                    let tabs = self.tables_of(VT::FuncRef);
+                    let tb = if self.cfg.feats.reftypes { *self.rng.pick(&tabs) } else { 0 };
+                    let ty = self.env.func_tys[f as usize];
+                    self.small_index(false, depth);
+                    self.code.return_call_indirect(ty, tb);
+                } else {
+                    self.code.return_call(f);
+                }
+                if self.rng.chance(1, 2) {
+                    // walrus keeps code after return_call; both sides agree it is dead
+                    self.code.i32_const(77).drop_();
+                }
+                self.labels.pop();
+                self.code.end_();
+            }
+            15 if self.cfg.feats.multivalue => {
+                // loop/block with parameters
+                let t = *self.rng.pick(&NUM_TYPES);
+                let bt = self.block_type(&[t], &[]);
+                self.expr(t, depth + 1);
+                self.code.block(&bt);
+                self.labels.push(Label { tys: vec![], is_loop: false });
+                self.code.drop_();
+                self.stmts(depth + 1, 2);
+                self.labels.pop();
+                self.code.end_();
+            }
+            16 => {
+                self.code.nop();
+            }
+            17 => {
+                // br_if out of an enclosing non-loop label carrying its values
+                let targets: Vec<usize> = (0..self.labels.len()).filter(|i| !self.labels[*i].is_loop).collect();
+                if targets.is_empty() {
+                    self.code.nop();
+                    return;
+                }
+                let li = *self.rng.pick(&targets);
+                let d = (self.labels.len() - 1 - li) as u32;
+                let tys = self.labels[li].tys.clone();
+                self.exprs(&tys, depth + 1);
+                self.expr(VT::I32, depth + 1);
+                self.code.br_if(d);
+                for _ in tys {
+                    self.code.drop_();
+                }
+            }
+            _ => {
+                let t = *self.rng.pick(&vts);
+                self.expr(t, depth + 1);
+                self.code.drop_();
+            }
+        }
+    }
+}
+
+fn unique_name(kind: &str, i: usize, rng: &mut Rng) -> String {
+    const ODD: [&str; 6] = ["", " sp ace", "ünï", "a.b$c", "\u{1F980}", "x\"q"];
+    if rng.chance(1, 12) {
+        format!("{}{}{}", kind, i, rng.pick(&ODD))
+    } else {
+        format!("{}_{}", kind, i)
+    }
+}
+
+/// Generate one module.
+pub fn generate(cfg: &GenCfg, rng: &mut Rng) -> MSpec {
+    let f = &cfg.feats;
+    let vts = val_types(f);
+    let mut m = MSpec::default();
+    // --- types
+    m.types.push((vec![], vec![]));
+    let ntypes = rng.range(2, 6);
+    for _ in 0..ntypes {
+        let np = rng.below(4) as usize;
+        let nr = if f.multivalue { rng.below(3) as usize } else { rng.below(2) as usize };
+        let p: Vec<VT> = (0..np).map(|_| *rng.pick(&vts)).collect();
+        let r: Vec<VT> = (0..nr).map(|_| *rng.pick(&vts)).collect();
+        if !m.types.contains(&(p.clone(), r.clone())) || rng.chance(1, 6) {
+            // occasionally a duplicate type: walrus merges them
+            m.types.push((p, r));
+        }
+    }
+    let mut marker: i64 = 0x5157_0000_0000 + ((rng.next() & 0xffff) as i64) * 0x10000;
+    let mut next_marker = || {
+        marker += 1;
+        marker
+    };
+    // --- imports
+    let nif = rng.below(if cfg.sparse { 5 } else { 3 });
+    for i in 0..nif {
+        let t = rng.below(m.types.len() as u64) as u32;
+        m.imports.push(Import { module: "env".into(), field: format!("fn{}", i), kind: ImportKind::Func(t) });
+    }
+    let mut n_mem_total = if f.multimem { rng.below(4) } else { rng.below(2) + rng.below(2) }.min(if f.multimem { 3 } else { 1 }) as usize;
+    if cfg.exec && n_mem_total == 0 && rng.chance(3, 4) {
+        n_mem_total = 1;
+    }
+    let mut n_tab_total = if f.reftypes { rng.below(4) } else { rng.below(2) } as usize;
+    if cfg.sparse {
+        n_tab_total += 1;
+        if f.multimem {
+            n_mem_total += 1;
+        }
+    }
+    let mk_mem = |rng: &mut Rng, i: usize| -> Limits {
+        let is64 = f.mem64 && rng.chance(1, 4);
+        let shared = f.threads && rng.chance(1, 4);
+        let min = 1 + rng.below(2) + i as u64 % 2;
+        let max = if shared || rng.chance(1, 2) { Some(min + rng.below(4) + i as u64) } else { None };
+        Limits { min, max, shared, is64 }
+    };
+    let mk_tab = |rng: &mut Rng, i: usize| -> TableTy {
+        let elem = if f.reftypes && rng.chance(1, 3) { VT::ExternRef } else { VT::FuncRef };
+        let min = 4 + rng.below(6) + i as u64;
+        let max = if rng.chance(1, 2) { Some(min + rng.below(8) + i as u64) } else { None };
+        TableTy { elem, lim: Limits::new(min, max) }
+    };
+    let mut mem_i = 0;
+    if n_mem_total > 0 && rng.chance(1, 4) {
+        m.imports.push(Import { module: "env".into(), field: "mem".into(), kind: ImportKind::Memory(mk_mem(rng, mem_i)) });
+        mem_i += 1;
+    }
+    let mut tab_i = 0;
+    if n_tab_total > 0 && rng.chance(1, 4) {
+        m.imports.push(Import { module: "env".into(), field: "tab".into(), kind: ImportKind::Table(mk_tab(rng, tab_i)) });
+        tab_i += 1;
+    }
+    let nig = rng.below(3);
+    for i in 0..nig {
+        let ty = *rng.pick(&vts);
+        let mutable = f.mutable_global && rng.chance(1, 3);
+        m.imports.push(Import { module: "env".into(), field: format!("g{}", i), kind: ImportKind::Global(GlobalTy { ty, mutable }) });
+    }
+    if rng.chance(1, 3) {
+        rng.shuffle(&mut m.imports);
+    }
+    while mem_i < n_mem_total {
+        let l = mk_mem(rng, mem_i);
+        m.memories.push(l);
+        mem_i += 1;
+    }
+    while tab_i < n_tab_total {
+        let t = mk_tab(rng, tab_i);
+        m.tables.push(t);
+        tab_i += 1;
+    }
+    // --- local functions: signatures now, bodies later
+    let nfuncs = rng.range(1, cfg.max_funcs as u64) as usize;
+    for _ in 0..nfuncs {
+        let t = rng.below(m.types.len() as u64) as u32;
+        m.funcs.push(FuncSpec { ty: t, locals: vec![], code: vec![] });
+    }
+    let nif = m.num_imported_funcs();
+    let total_funcs = nif + nfuncs as u32;
+    // --- globals
+    let imported_globals: Vec<(u32, GlobalTy)> = m.all_globals().into_iter().enumerate().map(|(i, g)| (i as u32, g)).collect();
+    let ng = rng.range(1, if cfg.sparse { 8 } else { 5 });
+    let mut ref_funcs: BTreeSet<u32> = BTreeSet::new();
+    for _ in 0..ng {
+        let ty = *rng.pick(&vts);
+        let mutable = rng.chance(1, 2);
+        let same: Vec<u32> = imported_globals.iter().filter(|(_, g)| g.ty == ty && !g.mutable).map(|(i, _)| *i).collect();
+        let init = if !same.is_empty() && rng.chance(1, 3) {
+            CExpr::GlobalGet(*rng.pick(&same))
+        } else {
+            match ty {
+                VT::I32 => CExpr::I32(next_marker() as i32),
+                VT::I64 => CExpr::I64(next_marker()),
+                VT::F32 => CExpr::F32((next_marker() as u32) | 0x4000_0000 & 0x7f7f_ffff),
+                VT::F64 => CExpr::F64((next_marker() as u64) | 0x4000_0000_0000_0000),
+                VT::V128 => {
+                    let mut b = [0u8; 16];
+                    b[..8].copy_from_slice(&next_marker().to_le_bytes());
+                    CExpr::V128(b)
+                }
+                VT::FuncRef => {
+                    if rng.chance(1, 2) {
+                        let fi = rng.below(total_funcs as u64) as u32;
+                        ref_funcs.insert(fi);
+                        CExpr::RefFunc(fi)
+                    } else {
+                        CExpr::RefNull(VT::FuncRef)
+                    }
+                }
+                VT::ExternRef => CExpr::RefNull(VT::ExternRef),
+            }
+        };
+        m.globals.push((GlobalTy { ty, mutable }, init));
+    }
+    // --- element segments (before bodies: table.init/elem.drop refer to them)
+    let all_tables = m.all_tables();
+    let ne = if all_tables.is_empty() && !f.bulk { 0 } else { rng.below(if cfg.sparse { 6 } else { 4 }) };
+    for _ in 0..ne {
+        let mode_k = if f.bulk { rng.below(4) } else { 0 };
+        let ty;
+        let mode = match mode_k {
+            0 | 1 if !all_tables.is_empty() => {
+                let table = if f.reftypes { rng.below(all_tables.len() as u64) as u32 } else { 0 };
+                ty = all_tables[table as usize].elem;
+                let off_globals: Vec<u32> = imported_globals.iter().filter(|(_, g)| g.ty == VT::I32 && !g.mutable).map(|(i, _)| *i).collect();
+                let offset = if !off_globals.is_empty() && rng.chance(1, 5) && !cfg.exec { CExpr::GlobalGet(*rng.pick(&off_globals)) } else { CExpr::I32(rng.below(3) as i32) };
+                ElemMode::Active { table, offset }
+            }
+            2 | 0 | 1 => {
+                ty = if f.reftypes && rng.chance(1, 4) { VT::ExternRef } else { VT::FuncRef };
+                if f.bulk {
+                    ElemMode::Passive
+                } else {
+                    continue;
+                }
+            }
+            _ => {
+                ty = VT::FuncRef;
+                ElemMode::Declared
+            }
+        };
+        let n = rng.below(4) as usize;
+        let items = if ty == VT::FuncRef && (!f.reftypes || rng.chance(1, 2)) {
+            ElemItems::Funcs((0..n).map(|_| rng.below(total_funcs as u64) as u32).collect())
+        } else if !f.reftypes && !f.bulk {
+            ElemItems::Funcs((0..n).map(|_| rng.below(total_funcs as u64) as u32).collect())
+        } else {
+            let same: Vec<u32> = imported_globals.iter().filter(|(_, g)| g.ty == ty && !g.mutable).map(|(i, _)| *i).collect();
+            ElemItems::Exprs(
+                (0..n)
+                    .map(|_| {
+                        if !same.is_empty() && rng.chance(1, 3) {
+                            CExpr::GlobalGet(*rng.pick(&same))
+                        } else if ty == VT::FuncRef && rng.chance(2, 3) {
+                            CExpr::RefFunc(rng.below(total_funcs as u64) as u32)
+                        } else {
+                            CExpr::RefNull(ty)
+                        }
+                    })
+                    .collect(),
+            )
+        };
+        let explicit_table = f.reftypes && rng.chance(1, 4);
+        m.elems.push(ElemSpec { mode, ty, items, explicit_table });
+    }
+    // --- data segments
+    let all_mems = m.all_memories();
+    let nd = if all_mems.is_empty() && !f.bulk { 0 } else { rng.below(if cfg.sparse { 6 } else { 4 }) };
+    for i in 0..nd {
+        let n = rng.below(12) as usize;
+        let mut bytes: Vec<u8> = next_marker().to_le_bytes()[..n.min(8)].to_vec();
+        bytes.push(i as u8);
+        let mode = if !all_mems.is_empty() && (!f.bulk || rng.chance(1, 2)) {
+            let mem = if f.multimem { rng.below(all_mems.len() as u64) as u32 } else { 0 };
+            let is64 = all_mems[mem as usize].is64;
+            let off = rng.below(200) as i64 * 8;
+            DataMode::Active { mem, offset: if is64 { CExpr::I64(off) } else { CExpr::I32(off as i32) } }
+        } else if f.bulk {
+            DataMode::Passive
+        } else {
+            continue;
+        };
+        m.datas.push(DataSpec { mode, bytes, explicit_mem: f.multimem && rng.chance(1, 4) });
+    }
+    // --- bodies
+    let mut env = Env {
+        types: std::mem::take(&mut m.types),
+        func_tys: (0..total_funcs).map(|i| m.func_type_pre(i)).collect(),
+        num_imported_funcs: nif,
+        tables: all_tables.clone(),
+        memories: all_mems.clone(),
+        globals: m.all_globals(),
+        imported_globals: imported_globals.len() as u32,
+        elems: m.elems.iter().map(|e| e.ty).collect(),
+        ndatas: m.datas.len() as u32,
+        ref_funcs,
+        uses_data_ops: false,
+    };
+    let _ = env.imported_globals;
+    let plain = PlainIndex::new(cfg);
+    for fi in 0..nfuncs {
+        let ty = m.funcs[fi].ty;
+        let (params, results) = env.types[ty as usize].clone();
+        let mut locals: Vec<VT> = params.clone();
+        let nl = rng.below(5);
+        for _ in 0..nl {
+            locals.push(*rng.pick(&vts));
+        }
+        let mut g = BodyGen {
+            env: &mut env,
+            rng: rng.split(),
+            cfg,
+            locals,
+            nparams: params.len(),
+            labels: vec![Label { tys: results.clone(), is_loop: false }],
+            code: Code::new(),
+            budget: cfg.body_budget,
+            func_index: nif + fi as u32,
+            ret: results.clone(),
+            plain_by_result: &plain,
+            counters: vec![],
+        };
+        if cfg.markers {
+            let mk = next_marker();
+            g.code.i64_const(mk).drop_();
+        }
+        g.stmts(0, 5);
+        let res = results.clone();
+        g.exprs(&res, 0);
+        let code = g.code.end();
+        let all_locals = g.locals.clone();
+        let np = g.nparams;
+        // group declared locals as they come (adjacent equal types form one group)
+        let mut groups: Vec<(u32, VT)> = Vec::new();
+        for t in &all_locals[np..] {
+            match groups.last_mut() {
+                Some((n, lt)) if lt == t && !rng.chance(1, 5) => *n += 1,
+                _ => groups.push((1, *t)),
+            }
+        }
+        m.funcs[fi].locals = groups;
+        m.funcs[fi].code = code;
+    }
+    m.types = std::mem::take(&mut env.types);
+    // every ref.func target must be declared somewhere outside function bodies
+    let mut declared: BTreeSet<u32> = BTreeSet::new();
+    for e in &m.elems {
+        match &e.items {
+            ElemItems::Funcs(fs) => declared.extend(fs.iter().copied()),
+            ElemItems::Exprs(es) => {
+                for x in es {
+                    if let CExpr::RefFunc(fi) = x {
+                        declared.insert(*fi);
+                    }
+                }
+            }
+        }
+    }
+    for (_, init) in &m.globals {
+        if let CExpr::RefFunc(fi) = init {
+            declared.insert(*fi);
+        }
+    }
+    // --- exports
+    let mut exported_funcs = BTreeSet::new();
+    for fi in 0..total_funcs {
+        let p = if cfg.export_all { 5 } else { 1 };
+        if rng.chance(p, 6) {
+            m.exports.push(Export { name: unique_name("f", fi as usize, rng), kind: ExportKind::Func, index: fi });
+            exported_funcs.insert(fi);
+            if rng.chance(1, 12) {
+                // the same entity exported twice
+                m.exports.push(Export { name: format!("alias_f{}", fi), kind: ExportKind::Func, index: fi });
+            }
+        }
+    }
+    declared.extend(exported_funcs.iter().copied());
+    let missing: Vec<u32> = env.ref_funcs.iter().copied().filter(|x| !declared.contains(x)).collect();
+    if !missing.is_empty() {
+        if f.bulk && f.reftypes {
+            m.elems.push(ElemSpec { mode: ElemMode::Declared, ty: VT::FuncRef, items: ElemItems::Funcs(missing), explicit_table: false });
+        } else {
+            for fi in missing {
+                m.exports.push(Export { name: format!("decl_f{}", fi), kind: ExportKind::Func, index: fi });
+            }
+        }
+    }
+    let pe = if cfg.export_all { 4 } else { 1 };
+    for (i, g) in m.all_globals().iter().enumerate() {
+        if (!g.mutable || f.mutable_global) && rng.chance(pe, 6) {
+            m.exports.push(Export { name: unique_name("g", i, rng), kind: ExportKind::Global, index: i as u32 });
+        }
+    }
+    for i in 0..all_mems.len() {
+        if rng.chance(pe, 5) {
+            m.exports.push(Export { name: unique_name("m", i, rng), kind: ExportKind::Memory, index: i as u32 });
+        }
+    }
+    for i in 0..all_tables.len() {
+        if rng.chance(pe, 5) {
+            m.exports.push(Export { name: unique_name("t", i, rng), kind: ExportKind::Table, index: i as u32 });
+        }
+    }
+    if rng.chance(1, 3) {
+        rng.shuffle(&mut m.exports);
+    }
+    // --- start
+    let starts: Vec<u32> = (0..total_funcs).filter(|i| m.types[m.func_type(*i) as usize] == (vec![], vec![])).collect();
+    if !starts.is_empty() && rng.chance(1, 4) {
+        m.start = Some(*rng.pick(&starts));
+    }
+    // --- data count: required when bulk data instructions are used, optional otherwise
+    m.data_count = if env.uses_data_ops || m.datas.iter().any(|d| matches!(d.mode, DataMode::Passive)) {
+        Some(true)
+    } else if f.bulk && !m.datas.is_empty() && rng.chance(1, 3) {
+        Some(true)
+    } else {
+        Some(false)
+    };
+    if rng.chance(1, 10) {
+        m.pad_leb = rng.range(2, 5) as u8;
+    }
+    if cfg.names {
+        m.names = Some(gen_names(&m, rng));
+    }
+    if cfg.producers {
+        m.producers = Some(gen_producers(rng));
+    }
+    if cfg.customs {
+        gen_customs(&mut m, rng);
+    }
+    m
+}
+
+impl MSpec {
+    fn func_type_pre(&self, f: u32) -> u32 {
+        self.func_type(f)
+    }
+}
+
+pub fn gen_names(m: &MSpec, rng: &mut Rng) -> NameSpec {
+    let mut n = NameSpec::default();
+    let p = rng.range(2, 6); // partial name sections: each entity named with probability p/6
+    if rng.chance(2, 3) {
+        n.module = Some(format!("mod_{}", rng.below(1000)));
+    }
+    let nf = m.num_funcs();
+    for i in 0..nf {
+        if rng.chance(p, 6) {
+            n.funcs.push((i, format!("$fn_{}_{}", i, rng.below(100))));
+        }
+    }
+    let nif = m.num_imported_funcs();
+    for (k, f) in m.funcs.iter().enumerate() {
+        let fi = nif + k as u32;
+        let np = m.types[f.ty as usize].0.len() as u32;
+        let nl: u32 = f.locals.iter().map(|g| g.0).sum();
+        let mut v = Vec::new();
+        for li in 0..(np + nl) {
+            if rng.chance(p, 6) {
+                v.push((li, format!("$l_{}_{}", fi, li)));
+            }
+        }
+        if !v.is_empty() {
+            n.locals.push((fi, v));
+        }
+        if rng.chance(1, 8) {
+            n.labels.push((fi, vec![(0, format!("$lab_{}", fi))]));
+        }
+    }
+    for i in 0..m.types.len() as u32 {
+        if rng.chance(p, 6) {
+            n.types.push((i, format!("$ty_{}", i)));
+        }
+    }
+    for i in 0..m.all_tables().len() as u32 {
+        if rng.chance(p, 6) {
+            n.tables.push((i, format!("$tab_{}", i)));
+        }
+    }
+    for i in 0..m.all_memories().len() as u32 {
+        if rng.chance(p, 6) {
+            n.memories.push((i, format!("$mem_{}", i)));
+        }
+    }
+    for i in 0..m.all_globals().len() as u32 {
+        if rng.chance(p, 6) {
+            n.globals.push((i, format!("$glob_{}", i)));
+        }
+    }
+    for i in 0..m.elems.len() as u32 {
+        if rng.chance(p, 6) {
+            n.elems.push((i, format!("$elem_{}", i)));
+        }
+    }
+    for i in 0..m.datas.len() as u32 {
+        if rng.chance(p, 6) {
+            n.datas.push((i, format!("$data_{}", i)));
+        }
+    }
+    n
+}
+
+pub fn gen_producers(rng: &mut Rng) -> Vec<(String, Vec<(String, String)>)> {
+    let mut out = Vec::new();
+    if rng.chance(2, 3) {
+        out.push(("language".to_string(), vec![("Rust".to_string(), format!("20{}", rng.range(15, 24)))]));
+    }
+    let mut tools = vec![];
+    if rng.chance(1, 2) {
+        tools.push(("rustc".to_string(), format!("1.{}.0", rng.range(30, 90))));
+    }
+    if rng.chance(1, 3) {
+        // input already processed by (an older) walrus
+        tools.push(("walrus".to_string(), format!("0.{}.0", rng.range(1, 22))));
+    }
+    if rng.chance(1, 3) {
+        tools.push(("wasm-bindgen".to_string(), "0.2.92".to_string()));
+    }
+    if !tools.is_empty() {
+        rng.shuffle(&mut tools);
+        out.push(("processed-by".to_string(), tools));
+    }
+    if rng.chance(1, 3) {
+        out.push(("sdk".to_string(), vec![("emscripten".to_string(), "3.1.0".to_string())]));
+    }
+    out
+}
+
+pub fn gen_customs(m: &mut MSpec, rng: &mut Rng) {
+    const NAMES: [&str; 14] = ["zzz", "aaa", "", "names", ".debu", "producers2", "target_features", "linking", "reloc.CODE", "dylink.0", "sourceMappingURL", "üñí", "name ", "debug_info"];
+    let n = rng.below(7);
+    let places = [0u8, 1, 2, 3, 4, 5, 6, 7, 8, 9, 10, 11, 12, 254, 255];
+    for i in 0..n {
+        let name = if rng.chance(1, 6) && i > 0 { m.customs[rng.below(m.customs.len() as u64) as usize].name.clone() } else { rng.pick(&NAMES).to_string() };
+        let len = rng.below(40) as usize;
+        let tag = fnv64(&[i as u8, rng.next() as u8, rng.next() as u8, rng.next() as u8]);
+        let mut data: Vec<u8> = tag.to_le_bytes().to_vec();
+        data.extend((0..len).map(|_| rng.next() as u8));
+        if rng.chance(1, 8) {
+            data.clear();
+        }
+        m.customs.push(CustomSpec { name, data, before: *rng.pick(&places) });
+    }
+}
+
+fn profile_hash(p: &str) -> u64 {
+    fnv64(p.as_bytes())
+}
+
+/// `gen:<profile>:<seed>:<index>`; `census:*`, `mut:*` etc. are dispatched from here too.
+pub fn materialize(spec: &str) -> Option<Vec<u8>> {
+    let parts: Vec<&str> = spec.splitn(4, ':').collect();
+    match parts.as_slice() {
+        ["gen", profile, seed, idx] => {
+            let seed: u64 = seed.parse().ok()?;
+            let idx: u64 = idx.parse().ok()?;
+            let cfg = GenCfg::profile(profile);
+            let mut rng = Rng::derive(seed, &[profile_hash(profile), idx]);
+            Some(generate(&cfg, &mut rng).encode())
+        }
+        _ => crate::census::materialize(spec),
+    }
+}
+
+pub fn gen_specs(profile: &str, seed: u64, n: u64) -> Vec<String> {
+    (0..n).map(|i| format!("gen:{}:{}:{}", profile, seed, i)).collect()
 }
